@@ -115,6 +115,9 @@ func triple(r *hx.Run, sc *scheme, strs [3]string) {
 			r.Op(sc.parseOp+" "+hexs(s), canon, it.ok)
 			if it.ok {
 				r.Count(sc.name + ":parse:ok")
+				for _, ft := range features(sc.name, s, canon) {
+					r.Count(sc.name + ":feature:" + ft)
+				}
 			} else {
 				r.Count(sc.name + ":parse:" + canon)
 			}
@@ -219,6 +222,57 @@ func triple(r *hx.Run, sc *scheme, strs [3]string) {
 			break
 		}
 	}
+}
+
+// features names the model branches a parsed text exercises (for the
+// evidence histogram).
+func features(scheme, s, canon string) []string {
+	var fs []string
+	add := func(c bool, name string) {
+		if c {
+			fs = append(fs, name)
+		}
+	}
+	switch scheme {
+	case "pep440":
+		first := strings.IndexAny(s, "0123456789")
+		add(first > 0 && s[first-1] == 'v', "v-prefix")
+		add(first > 1 || (first == 1 && s[0] != 'v'), "junk-before-match")
+		add(strings.Contains(s, "!") && strings.HasPrefix(canon, "ok 0 "), "bang-without-epoch")
+		add(strings.ContainsAny(s, "ABCDEFGHIJKLMNOPQRSTUVWXYZ"), "uppercase-ignored")
+		add(strings.Contains(s, ".."), "double-dot-stops-release")
+		add(strings.Contains(canon, "-2147483648") || strings.Contains(canon, "2147483647"), "int32-extreme-slot")
+	case "gem":
+		add(strings.Contains(canon, "s:"), "prerelease")
+		add(strings.Contains(s, "-"), "dash-to-pre")
+		add(strings.Count(canon, ":") < strings.Count(strings.TrimSpace(s), ".")+1, "segments-dropped")
+		add(canon == "ok", "empty-canonical")
+		add(s != strings.TrimSpace(s), "whitespace-trimmed")
+	case "maven":
+		tree, _ := hx.Unhex(strings.TrimPrefix(canon, "ok "))
+		t := string(tree)
+		depth, max := 0, 0
+		for _, c := range t {
+			if c == '[' {
+				depth++
+				if depth > max {
+					max = depth
+				}
+			} else if c == ']' {
+				depth--
+			}
+		}
+		add(true, fmt.Sprintf("depth=%d", min(max, 5)))
+		add(strings.Contains(t, "[]") && t != "[]", "kept-empty-sublist")
+		add(strings.Contains(t, `"0"`), "string-zero-from-empty-token")
+		add(strings.Contains(t, ",0,") || strings.Contains(t, "[0,"), "inner-zero")
+	case "rhctag":
+		add(strings.HasPrefix(s, "v"), "v-prefix")
+		add(strings.Contains(s, "~"), "tilde")
+		add(strings.Contains(s, ":"), "colon")
+		add(!strings.Contains(s, "."), "major-only")
+	}
+	return fs
 }
 
 // Run is the harness entry point.
